@@ -15,6 +15,8 @@ import vf
 
 def run(ctx):
     ctx.level = "exploration"
+    if getattr(ctx, "replay", None):
+        return c12.replay_run(ctx, "C02")
     cases, results, recs, verdicts = c12.collect(ctx)
     st = c12.Stats()
     for c in cases:
